@@ -853,73 +853,110 @@ func c05R2OCI(c *Ctx) {
 		c.LostAnchor(R, "blob-path constructor (joins \"blobs\" with a digest) in ~/content/oci")
 		return
 	}
-	renames := CallsTo(fn, "os.Rename", "os.Link", "os.Symlink")
+	root := c05Root(fn)
+	type site struct {
+		call ssa.CallInstruction
+		env  *c05Env
+	}
+	var renames []site
+	for _, e := range c05TreeEnvs(root, 3) {
+		for _, rn := range CallsTo(e.Fn, "os.Rename", "os.Link", "os.Symlink") {
+			renames = append(renames, site{rn, e})
+		}
+	}
 	if len(renames) == 0 {
-		c.LostAnchor(R, tn+": publication effect (os.Rename into blobs/)")
+		c.LostAnchor(R, tn+": publication effect (os.Rename into blobs/, in Push or a helper it calls)")
 		return
 	}
-	for _, rn := range renames {
+	// dominated: on every path from Push's entry to the target (which lives in
+	// node e), level `at` passes the cut before entering the next level.
+	dominated := func(e *c05Env, target ssa.Instruction, at *c05Env, ct *cut) bool {
+		tgt := target
+		for lv := e; lv != nil; lv = lv.Parent {
+			if lv == at {
+				return MustPass(tgt, ct)
+			}
+			if lv.Call == nil {
+				return false
+			}
+			tgt = lv.Call.(ssa.Instruction)
+		}
+		return false
+	}
+	for _, rs := range renames {
+		rn, e := rs.call, rs.env
 		src, dst := rn.Common().Args[0], rn.Common().Args[1]
 		// destination: blob path of the same descriptor
 		okDst := false
-		for _, call := range Calls(fn, func(string) bool { return true }) {
+		dv, dat := e.up(dst)
+		for _, call := range Calls(dat.Fn, func(string) bool { return true }) {
 			g := StaticCallee(call)
 			if g == nil || !bp[g] {
 				continue
 			}
 			r0 := ResultOf(call, 0)
-			if r0 != nil && derivesFromAny(dst, map[ssa.Value]bool{r0: true}, 0) && c05FieldOfParam(call.Common().Args[0], "Digest") == expected {
-				okDst = true
+			if r0 == nil || !derivesFromAny(dv, map[ssa.Value]bool{r0: true}, 0) {
+				continue
+			}
+			if p := c05FieldOfParam(call.Common().Args[0], "Digest"); p != nil {
+				if w, at := dat.up(p); at.isRoot() && w == ssa.Value(expected) {
+					okDst = true
+				}
 			}
 		}
 		c.Check(R, tn+"|target-is-blob-path-of-same-descriptor", rn.Pos(), okDst,
 			ifelse(okDst, "the rename target is built from blobPath(expected.Digest)", "the rename target is not the blob path of the descriptor being pushed"))
 		// source: result of the ingest helper, on its success edge
+		sv, sat := e.up(src)
 		var ig *ssa.Call
-		if e, ok := strip(src).(*ssa.Extract); ok && e.Index == 0 {
-			if call, ok := e.Tuple.(*ssa.Call); ok && StaticCallee(call) != nil && inModule(StaticCallee(call)) {
+		if ex, ok := strip(sv).(*ssa.Extract); ok && ex.Index == 0 {
+			if call, ok := ex.Tuple.(*ssa.Call); ok && StaticCallee(call) != nil && inModule(StaticCallee(call)) {
 				ig = call
 			}
 		}
 		if ig == nil {
-			// inlined shape: the renamed path is fp.Name() of a file written in Push itself
-			if nc, isCall := strip(src).(*ssa.Call); isCall && CalleeName(nc) == "(*os.File).Name" && len(CallsTo(fn, c05CopyBuf)) > 0 {
-				c.OK(R, tn+"|rename-source-is-ingest-result", rn.Pos(), "the renamed file is written and verified in Push itself (ingest inlined)")
-				var nilE []Edge
-				for _, cb := range CallsTo(fn, c05CopyBuf) {
-					nilE = append(nilE, c05NilEdgesOf(cb)...)
+			// inlined shape: the renamed path is fp.Name() of a file written and verified at that level
+			copies := c05CopyCalls(sat.Fn)
+			if nc, isCall := strip(sv).(*ssa.Call); isCall && CalleeName(nc) == "(*os.File).Name" && len(copies) > 0 {
+				c.OK(R, tn+"|rename-source-is-ingest-result", rn.Pos(), "the renamed file is written and verified in "+FnName(sat.Fn)+" itself (ingest inlined)")
+				ct := newCut()
+				for _, cp := range copies {
+					ct.Edges(c05NilEdgesOf(cp.Call)...)
 				}
-				ok := MustPass(rn.(ssa.Instruction), newCut().Edges(nilE...))
+				ok := dominated(e, rn.(ssa.Instruction), sat, ct)
 				c.Check(R, tn+"|rename-dominated-by-successful-ingest", rn.Pos(), ok,
-					ifelse(ok, "every path to the rename takes the err==nil edge of CopyBuffer", "the rename into blobs/ is reachable although the verified copy failed"))
-				c05IngestRole(c, R, fn, expected, reader, []ssa.Value{nc})
+					ifelse(ok, "every path to the rename takes the err==nil edge of the verified copy", "the rename into blobs/ is reachable although the verified copy failed"))
+				if sat.isRoot() {
+					c05IngestRole(c, R, fn, expected, reader, []ssa.Value{nc})
+				} else {
+					c.Undecided(R, tn+"|rename-source-is-ingest-result", rn.Pos(), "the verified write is inlined into the helper "+FnName(sat.Fn)+" rather than Push or an ingest helper")
+				}
 			} else {
-				c.Undecided(R, tn+"|rename-source-is-ingest-result", rn.Pos(), "the file renamed into blobs/ is "+describe(src)+": neither the result of an in-module ingest helper nor Name() of a file verified in Push")
+				c.Undecided(R, tn+"|rename-source-is-ingest-result", rn.Pos(), "the file renamed into blobs/ is "+describe(sv)+": neither the result of an in-module ingest helper nor Name() of a file verified in Push")
 			}
 			continue
 		}
 		c.OK(R, tn+"|rename-source-is-ingest-result", rn.Pos(), "the renamed file is the path returned by the ingest helper "+FnName(StaticCallee(ig)))
-		ok := MustPass(rn.(ssa.Instruction), newCut().Edges(c05NilEdgesOf(ig)...))
+		ok := dominated(e, rn.(ssa.Instruction), sat, newCut().Edges(c05NilEdgesOf(ig)...))
 		c.Check(R, tn+"|rename-dominated-by-successful-ingest", rn.Pos(), ok,
 			ifelse(ok, "every path to the rename takes the err==nil edge of the ingest helper", "the rename into blobs/ is reachable although ingest failed (unverified or partial content becomes visible)"))
 		// arguments of ingest are Push's own descriptor and reader
 		g := StaticCallee(ig)
 		var gDesc, gRd *ssa.Parameter
-		okArgs := true
 		for i, a := range ig.Call.Args {
 			if i >= len(g.Params) {
 				break
 			}
-			if c05ParamOf(a) == expected {
-				gDesc = g.Params[i]
-			}
-			if strip(a) == ssa.Value(reader) {
-				gRd = g.Params[i]
+			if w, at := sat.up(a); at.isRoot() {
+				if w == ssa.Value(expected) {
+					gDesc = g.Params[i]
+				}
+				if strip(w) == ssa.Value(reader) {
+					gRd = g.Params[i]
+				}
 			}
 		}
-		if gDesc == nil || gRd == nil {
-			okArgs = false
-		}
+		okArgs := gDesc != nil && gRd != nil
 		c.Check(R, tn+"|ingest-gets-callers-descriptor-and-stream", ig.Pos(), okArgs, "ingest(expected, content) receives Push's own descriptor and reader")
 		if okArgs {
 			var pathVals []ssa.Value
@@ -934,7 +971,7 @@ func c05R2OCI(c *Ctx) {
 // c05IngestRole checks the helper that writes the stream to a temp file.
 func c05IngestRole(c *Ctx, R string, g *ssa.Function, desc, rd *ssa.Parameter, pathVals []ssa.Value) {
 	gn := FnName(g)
-	cbs := CallsTo(g, c05CopyBuf)
+	cbs := c05CopyCalls(g)
 	if len(cbs) == 0 {
 		c.Violation(R, gn+"|nil-error-implies-verified-copy", g.Pos(), "the ingest helper does not copy through ioutil.CopyBuffer (no verification while writing)")
 		return
@@ -942,17 +979,25 @@ func c05IngestRole(c *Ctx, R string, g *ssa.Function, desc, rd *ssa.Parameter, p
 	var nilE []Edge
 	okDesc := true
 	var dsts []ssa.Value
+	cbRes := map[ssa.Value]bool{}
 	for _, cb := range cbs {
-		nilE = append(nilE, c05NilEdgesOf(cb)...)
-		a := cb.Common().Args
-		if c05ParamOf(a[3]) != desc || strip(a[1]) != ssa.Value(rd) {
+		nilE = append(nilE, c05NilEdgesOf(cb.Call)...)
+		if c05ParamOf(cb.Desc) != desc || strip(cb.Src) != ssa.Value(rd) {
 			okDesc = false
 		}
-		dsts = append(dsts, strip(a[0]))
+		dsts = append(dsts, strip(cb.Dst))
+		if v := cb.Call.Value(); v != nil {
+			for a := range Aliases(v) {
+				cbRes[a] = true
+			}
+		}
 	}
 	ok := true
 	detail := ""
 	for _, a := range c05MaybeNilAtoms(g) {
+		if cbRes[a.Val] || cbRes[strip(a.Val)] {
+			continue
+		}
 		if !c05AtomMustPass(a, newCut().Edges(nilE...)) {
 			ok = false
 			detail = "return at " + c.P.Pos(a.Ret.Pos())
@@ -961,10 +1006,10 @@ func c05IngestRole(c *Ctx, R string, g *ssa.Function, desc, rd *ssa.Parameter, p
 	if why := c05DeferKeepsError(g); why != "" {
 		ok, detail = false, why
 	}
-	c.Check(R, gn+"|nil-error-implies-verified-copy", cbs[0].Pos(), ok,
-		ifelse(ok, "every return with a possibly-nil error lies behind CopyBuffer()==nil; deferred closures cannot clear the error", "ingest can report success without a successful verified copy: "+detail))
-	c.Check(R, gn+"|copy-verifies-callers-descriptor", cbs[0].Pos(), okDesc,
-		ifelse(okDesc, "CopyBuffer verifies the parameter stream against the parameter descriptor", "CopyBuffer does not verify the caller's stream against the caller's descriptor"))
+	c.Check(R, gn+"|nil-error-implies-verified-copy", cbs[0].Call.Pos(), ok,
+		ifelse(ok, "every return with a possibly-nil error lies behind the verified copy's err==nil edge; deferred code cannot clear the error", "ingest can report success without a successful verified copy: "+detail))
+	c.Check(R, gn+"|copy-verifies-callers-descriptor", cbs[0].Call.Pos(), okDesc,
+		ifelse(okDesc, "the copy verifies the parameter stream against the parameter descriptor", "the copy does not verify the caller's stream against the caller's descriptor"))
 	// returned path = name of the file written
 	okPath := true
 	var files []ssa.Value
@@ -996,7 +1041,7 @@ func c05IngestRole(c *Ctx, R string, g *ssa.Function, desc, rd *ssa.Parameter, p
 		}
 	}
 	c.Check(R, gn+"|returned-path-is-the-verified-file", g.Pos(), okPath,
-		ifelse(okPath, "the returned path is Name() of the file CopyBuffer wrote", "ingest returns a path other than the file whose content was verified"))
+		ifelse(okPath, "the returned path is Name() of the file the verified copy wrote", "ingest returns a path other than the file whose content was verified"))
 	// temp file lives in ingestRoot, which is not under blobs/
 	okTmp, why := false, "the verified file does not come from os.CreateTemp(<Storage field>, …)"
 	for _, f := range files {
@@ -1023,7 +1068,7 @@ func c05R2File(c *Ctx) {
 	// saveFile-role: writes digestToPath and copies through CopyBuffer
 	n := 0
 	for _, f := range fns {
-		cbs := CallsTo(f, c05CopyBuf)
+		cbs := c05CopyCalls(f)
 		if len(cbs) == 0 {
 			continue
 		}
@@ -1036,7 +1081,7 @@ func c05R2File(c *Ctx) {
 			fname := FnName(f)
 			var nilE []Edge
 			for _, cb := range cbs {
-				nilE = append(nilE, c05NilEdgesOf(cb)...)
+				nilE = append(nilE, c05NilEdgesOf(cb.Call)...)
 			}
 			ok1 := MustPass(call.(ssa.Instruction), newCut().Edges(nilE...))
 			c.Check(R, fname+"|digest-recorded-only-after-verified-copy", call.Pos(), ok1,
@@ -1044,13 +1089,12 @@ func c05R2File(c *Ctx) {
 			args := call.Common().Args
 			okKey, okVal := false, false
 			for _, cb := range cbs {
-				a := cb.Common().Args
-				if dp := c05ParamOf(a[3]); dp != nil && c05FieldOfParam(args[1], "Digest") == dp {
+				if dp := c05ParamOf(cb.Desc); dp != nil && c05FieldOfParam(args[1], "Digest") == dp {
 					okKey = true
 				}
 				if nc, isCall := strip(args[2]).(*ssa.Call); isCall && CalleeName(nc) == "(*os.File).Name" {
 					for _, r1 := range Roots(nc.Call.Args[0]) {
-						for _, r2 := range Roots(strip(a[0])) {
+						for _, r2 := range Roots(strip(cb.Dst)) {
 							if r1 == r2 {
 								okVal = true
 							}
@@ -1064,7 +1108,7 @@ func c05R2File(c *Ctx) {
 				ifelse(okVal, "the recorded path is Name() of the file CopyBuffer wrote", "the path recorded for the digest is not the file that was written and verified"))
 			okFresh, whyFresh := true, "the verified bytes are written into a file that is created empty (os.Create / os.CreateTemp / O_TRUNC without O_APPEND) on every call chain"
 			for _, cb := range cbs {
-				if ok, why := c05FreshFile(c, strip(cb.Common().Args[0]), 0); !ok {
+				if ok, why := c05FreshFile(c, strip(cb.Dst), 0); !ok {
 					okFresh, whyFresh = false, "the file the verified bytes are copied into may already hold data ("+why+"): the recorded file is then not the bytes the descriptor names"
 				}
 			}
@@ -1080,7 +1124,8 @@ func c05R2File(c *Ctx) {
 		c.LostAnchor(R, "function of ~/content/file that copies with CopyBuffer and records digestToPath (saveFile role)")
 	}
 	// push-role: marks the name as existing
-	c05ExistsAfterSuccess(c, R, "(*~/content/file.Store).push")
+	// push-role: the function(s) below Store.Push that mark a name as existing
+	c05ExistsAfterSuccess(c, R, c05ExistsWriters(c, true))
 }
 
 // c05FreshFile: every value v may denote is a file that was just created
@@ -1170,17 +1215,45 @@ func constantInt64(k *types.Const) (int64, bool) {
 // c05ExistsAfterSuccess: in function `which` of content/file every store of
 // true to nameStatus.exists is preceded by a content-producing call, and
 // between any such call and the store the call's error is nil.
-func c05ExistsAfterSuccess(c *Ctx, R, which string) {
-	var f *ssa.Function
-	for _, g := range c.P.FuncsOfPkg("content/file") {
-		if FnName(g) == which {
-			f = g
+// c05ExistsWriters: the functions of content/file that store a non-false value
+// into nameStatus.exists.  pushSide selects those in the call tree of
+// Store.Push; otherwise all of them (Push side and Add).
+func c05ExistsWriters(c *Ctx, pushSide bool) []*ssa.Function {
+	inPush := map[*ssa.Function]bool{}
+	if p := c.P.Fn("content/file", "Store.Push"); p != nil && len(p.Blocks) > 0 {
+		for _, e := range c05TreeEnvs(c05Root(p), 4) {
+			inPush[e.Fn] = true
 		}
 	}
-	if f == nil {
-		c.LostAnchor(R, which)
+	var out []*ssa.Function
+	for _, f := range c.P.FuncsOfPkg("content/file") {
+		writes := false
+		for _, u := range c05FieldUses([]*ssa.Function{f}, "~/content/file.nameStatus", "exists") {
+			if st, isStore := u.Use.(*ssa.Store); isStore {
+				if k, ok := st.Val.(*ssa.Const); !ok || k.Value == nil || k.Value.String() != "false" {
+					writes = true
+				}
+			}
+		}
+		if writes && (!pushSide || inPush[f]) {
+			out = append(out, f)
+		}
+	}
+	return out
+}
+
+func c05ExistsAfterSuccess(c *Ctx, R string, fs []*ssa.Function) {
+	if len(fs) == 0 {
+		c.LostAnchor(R, "function of ~/content/file that marks a name as existing (store to nameStatus.exists)")
 		return
 	}
+	for _, f := range fs {
+		c05ExistsAfterSuccess1(c, R, f)
+	}
+}
+
+func c05ExistsAfterSuccess1(c *Ctx, R string, f *ssa.Function) {
+	which := FnName(f)
 	writesDigest := func(n string, call ssa.CallInstruction) bool {
 		if !c05SyncMapWriters[n] || len(call.Common().Args) == 0 {
 			return false
@@ -1548,7 +1621,7 @@ func c05MapInventory(c *Ctx, R string, fns []*ssa.Function, typ, field string, t
 // itself over the very file it records.
 func c05AddProvenance(c *Ctx, R string) {
 	for _, f := range c.P.FuncsOfPkg("content/file") {
-		if len(CallsTo(f, c05CopyBuf)) > 0 {
+		if len(c05CopyCalls(f)) > 0 {
 			continue // saveFile role, handled by R2
 		}
 		for _, u := range c05FieldUses([]*ssa.Function{f}, "~/content/file.Store", "digestToPath") {
@@ -1645,14 +1718,48 @@ var c05Creators = map[string]bool{
 	"(*os.Root).Create": true, "(*os.Root).OpenFile": true, "(*os.Root).Mkdir": true, "os.CopyFS": true,
 }
 
+type c05Src struct {
+	V  ssa.Value
+	Fn *ssa.Function
+}
+
+// c05ArgSources: where a path value comes from — when it is a parameter of an
+// unexported helper, the arguments at every static call site in the package
+// (transitively, depth <= 3).
+func c05ArgSources(pkgFns []*ssa.Function, f *ssa.Function, v ssa.Value, depth int) []c05Src {
+	p, isParam := strip(v).(*ssa.Parameter)
+	if !isParam || depth >= 3 || p.Parent() != f {
+		return []c05Src{{v, f}}
+	}
+	idx := -1
+	for i, q := range f.Params {
+		if q == p {
+			idx = i
+		}
+	}
+	var out []c05Src
+	for _, g := range pkgFns {
+		for _, call := range Calls(g, func(string) bool { return true }) {
+			if StaticCallee(call) == f && idx >= 0 && idx < len(call.Common().Args) {
+				out = append(out, c05ArgSources(pkgFns, g, call.Common().Args[idx], depth+1)...)
+			}
+		}
+	}
+	if len(out) == 0 {
+		return []c05Src{{v, f}}
+	}
+	return out
+}
+
 func c05BlobsInventory(c *Ctx, R string) {
 	fns := c.P.FuncsOfPkg("content/oci")
 	bp := c05BlobPathFns(c.P)
 	all := c05ModuleFuncs(c.P)
 	publications := 0
+	// values that denote a path under blobs/, per function
+	blobVals := map[*ssa.Function]map[ssa.Value]bool{}
 	for _, f := range fns {
-		// values of f that denote a path under blobs/
-		blobVals := map[ssa.Value]bool{}
+		bv := map[ssa.Value]bool{}
 		AllInstrs(f, func(in ssa.Instruction) {
 			call, ok := in.(*ssa.Call)
 			if !ok {
@@ -1660,25 +1767,42 @@ func c05BlobsInventory(c *Ctx, R string) {
 			}
 			if g := StaticCallee(call); g != nil && bp[g] {
 				if r0 := ResultOf(call, 0); r0 != nil {
-					blobVals[r0] = true
+					bv[r0] = true
 				}
-				blobVals[call] = true
+				bv[call] = true
 			}
 			for _, a := range call.Call.Args {
 				if s, ok := constString(a); ok && (s == "blobs" || strings.HasPrefix(s, "blobs/")) {
-					blobVals[a] = true
+					bv[a] = true
 				}
 			}
 			if nm := CalleeName(call); nm == "path.Join" || nm == "path/filepath.Join" {
 				for _, e := range c05VariadicElems(variadicArg(call)) {
 					if s, ok := constString(e); ok && (s == "blobs" || strings.HasPrefix(s, "blobs/")) {
-						blobVals[e] = true
-						blobVals[call] = true
+						bv[e] = true
+						bv[call] = true
 					}
 				}
 			}
 		})
-		underBlobs := func(v ssa.Value) bool { return len(blobVals) > 0 && derivesFromAny(v, blobVals, 0) }
+		blobVals[f] = bv
+	}
+	pushTree := map[*ssa.Function]bool{}
+	if p := c.P.Fn("content/oci", "Storage.Push"); p != nil && len(p.Blocks) > 0 {
+		for _, e := range c05TreeEnvs(c05Root(p), 3) {
+			pushTree[e.Fn] = true
+		}
+	}
+	for _, f := range fns {
+		f := f
+		underBlobs := func(v ssa.Value) bool {
+			for _, s := range c05ArgSources(fns, f, v, 0) {
+				if len(blobVals[s.Fn]) > 0 && derivesFromAny(s.V, blobVals[s.Fn], 0) {
+					return true
+				}
+			}
+			return false
+		}
 		seen := map[string]int{}
 		for _, call := range Calls(f, func(n string) bool { return c05Creators[n] }) {
 			n := CalleeName(call)
@@ -1691,28 +1815,47 @@ func c05BlobsInventory(c *Ctx, R string) {
 			case "os.Rename":
 				if underBlobs(args[1]) {
 					publications++
-					ok := FnName(f) == "(*~/content/oci.Storage).Push" && !underBlobs(args[0])
+					ok := pushTree[f] && !underBlobs(args[0])
 					c.Check(R, key+"|publication", call.Pos(), ok,
-						ifelse(ok, "the only creator of names under blobs/: Storage.Push moves the verified ingest file to its blob path (R2 checks dominance)", "a rename into blobs/ outside Storage.Push (or from within blobs/): content becomes visible without passing ingest+verify"))
+						ifelse(ok, "the only creator of names under blobs/: Storage.Push (or a helper it calls) moves the verified ingest file to its blob path (R2 checks dominance)", "a rename into blobs/ outside Storage.Push (or from within blobs/): content becomes visible without passing ingest+verify"))
 				} else {
 					c.Violation(R, key, call.Pos(), "unclassified rename in the OCI layout package: review against C05 (is the target visible as content?) and extend the classification")
 				}
 			case "os.CreateTemp":
-				why := c05IngestDirOK(all, args[0])
+				why := ""
+				for _, s := range c05ArgSources(fns, f, args[0], 0) {
+					if w := c05IngestDirOK(all, s.V); w != "" {
+						why = w
+					}
+				}
 				c.Check(R, key+"|ingest-file", call.Pos(), why == "" && !underBlobs(args[0]),
 					ifelse(why == "", "temporary file in the storage's ingest directory, a constant sibling of blobs/", why))
 			case "os.WriteFile":
-				ok, role := false, "file written in place by the OCI layout package at an unreviewed path"
+				ok, role := true, ""
 				if underBlobs(args[0]) {
-					role = "a file is written directly under blobs/: content becomes visible without passing ingest+verify"
-				} else if fld := fieldOfFuncValue(args[0]); strings.HasSuffix(fld, ".indexPath") {
-					ok, role = true, "index.json (path held in Store.indexPath)"
-				} else if jc, isJoin := strip(args[0]).(*ssa.Call); isJoin && (CalleeName(jc) == "path/filepath.Join" || CalleeName(jc) == "path.Join") {
-					el := c05VariadicElems(variadicArg(jc))
-					if len(el) == 2 {
-						if seg, isK := constString(el[1]); isK && (seg == "oci-layout" || seg == "index.json") {
-							ok, role = true, "metadata file "+seg+" at the layout root"
+					ok, role = false, "a file is written directly under blobs/: content becomes visible without passing ingest+verify"
+				}
+				for _, s := range c05ArgSources(fns, f, args[0], 0) {
+					if !ok {
+						break
+					}
+					if fld := fieldOfFuncValue(s.V); strings.HasSuffix(fld, ".indexPath") {
+						role = "index.json (path held in Store.indexPath)"
+						continue
+					}
+					good := false
+					for _, r := range Roots(s.V) {
+						if jc, isJoin := strip(r).(*ssa.Call); isJoin && (CalleeName(jc) == "path/filepath.Join" || CalleeName(jc) == "path.Join") {
+							el := c05VariadicElems(variadicArg(jc))
+							if len(el) == 2 {
+								if seg, isK := constString(el[1]); isK && (seg == "oci-layout" || seg == "index.json") {
+									good, role = true, "metadata file "+seg+" at the layout root"
+								}
+							}
 						}
+					}
+					if !good {
+						ok, role = false, "file written in place by the OCI layout package at an unreviewed path ("+describe(s.V)+" in "+FnName(s.Fn)+")"
 					}
 				}
 				c.Check(R, key+"|metadata-file", call.Pos(), ok, role)
@@ -1823,8 +1966,8 @@ func c05R4(c *Ctx) {
 			continue // closures without an error result are handled below
 		}
 		var cbNil []Edge
-		for _, cb := range CallsTo(f, c05CopyBuf) {
-			cbNil = append(cbNil, c05NilEdgesOf(cb)...)
+		for _, cb := range c05CopyCalls(f) {
+			cbNil = append(cbNil, c05NilEdgesOf(cb.Call)...)
 		}
 		seen := map[string]int{}
 		for _, call := range Calls(f, func(string) bool { return true }) {
